@@ -1024,7 +1024,12 @@ void destruct_object (object_t * ob) {
         }
 
       if (otmp == ob->contains) /* not moved elsewhere ... see move_or_destruct() apply */
-        destruct_object (otmp);
+        {
+          destruct_object (otmp);
+          /* the hooks run by that destruct may have destructed us as well: do not finish twice */
+          if (ob->flags & O_DESTRUCTED)
+            return;
+        }
     }
 
 #ifdef OLD_ED
